@@ -1580,7 +1580,9 @@ class C09(Prop):
                     "A list is modelled as the sequence of method calls on the entity itself (list_visits = method_visits; a "
                     "top-level operation is mirrored but not inverted); lists on bare Angle edge data, bare CircleCurve (Mirror), "
                     "spline-round sketches (Scaling), leaves and operations are generated on every run. "
-                    "Oracle cases additionally use None and zero origins and compare every list case with the method calls.")
+                    "Oracle cases additionally use None and zero origins and compare every list case with the method calls. "
+                    "(S) EighthSphere/Hemisphere under 1..3 of translate/rotate/scale/mirror/copy (method or list): the shape's "
+                    "searchableSphere has the transformed centre and radius and the corners of the projected sides lie on it.")
         if getattr(self, "_unknown_overrides", None):
             res.notes.append("classes overriding a transformation method that the model does not special-case "
                              "(behaviour still compared through the call log): %s" % ", ".join(self._unknown_overrides))
@@ -1749,10 +1751,32 @@ class C09(Prop):
         for r in run_oracle_jobs(jobs):
             if r:
                 res.oracle_failures.append(r)
+        # (S) the searchableSphere of sphere shapes under transformation (direct oracle only)
+        res.oracle_failures += self.sphere_stream(ctx, res, ctx.n(60, 1200))
         if getattr(self, "_tables", None):
             res.oracle_failures += oracle_tables(*self._tables)
         ctx.log("S3: oracle cases in %.1fs" % (time.time() - T1))
         return res
+
+    def sphere_stream(self, ctx, res, n):
+        from props import C09_sphere
+        out, seen = [], set()
+        import glob
+        corpus = []
+        for fn in sorted(glob.glob(os.path.join(core.VERIF, "corpus", "C09", "sphere-*.json"))):
+            with open(fn) as fh:
+                corpus.append(json.load(fh)["case"])
+        for k in range(n + len(corpus)):
+            c = corpus[k] if k < len(corpus) else C09_sphere.gen_case(ctx.rng)
+            res.evaluations += 1
+            res.count("sphere-geometry:%s:%s" % (c["cls"], c["mode"]))
+            res.distinct.add("sphere:" + json.dumps(c, sort_keys=True))
+            f = C09_sphere.check(c)
+            if f and f["sig"] not in seen:
+                seen.add(f["sig"])
+                small = C09_sphere.shrink(c, f["sig"])
+                out.append(C09_sphere.check(small) or f)
+        return out
 
     # -- S4 ------------------------------------------------------------------------------------
     def search(self, ctx, broken, corr):
@@ -1845,6 +1869,15 @@ class C09(Prop):
             print("oracle:", why or "ok")
         elif kind == "copy":
             print("oracle:", check_copy_case(obj) or "ok")
+        elif kind == "sphere":
+            from props import C09_sphere
+            print("input:", json.dumps(obj["case"]))
+            try:
+                print("implementation:", json.dumps(C09_sphere.run_case(obj["case"])["geometry"]))
+            except Exception as e:  # noqa: BLE001
+                print("implementation raised", type(e).__name__, e)
+            f = C09_sphere.check(obj["case"])
+            print("oracle:", (f["why"], f["sig"]) if f else "ok")
         elif kind == "helper":
             rows = [r for r in tab_helper_writes() if r[0] == obj["helper"] and r[1] == obj["argument"] and r[2] == obj["form"]]
             print("implementation: modified =", [r[3] for r in rows])
